@@ -9,8 +9,15 @@
 //!   behind a usage that took a request). Legacy shape: [observer?], taker.
 //! * script: in-dialog requests with consecutive CSeq numbers in some arrival order (with retransmissions and
 //!   re-sent copies), near-miss requests, ACKs with the INVITE's CSeq, the drop of a usage's guard by the
-//!   application between two events (`DropGuard` = the taking usage, `DropGuardOf` = any usage), short waits,
+//!   application between two events (`DropGuard` = the taking usage, `DropGuardOf` = any usage), waits,
 //!   back-to-back arrivals.
+//! * time (`Wait`, virtual ms on the paused clock): short waits (1 ms .. 700 ms) and long ones (5 s .. 1 h, around
+//!   64*T1 = 32 s and its multiples) anywhere in the script - before the first arrival, after the last one, and
+//!   above all WHILE requests are held: the statement knows no time limit, a held request is released when the gap
+//!   is filled, 1 ms or an hour later (by then every transaction timer of the stack and of the peer has run out).
+//!   A release list can mix requests held for longer and for shorter than 64*T1; the hold time of a request can
+//!   be the sum of several waits none of which is long by itself. Copies of a request (same branch) follow the
+//!   first one within 20 s, so that they stay retransmissions (absorbed) whatever happened to the original.
 //! * in-receive guard drops (`acts`): while usage `actor` is inside `Usage::receive` for request `on`, it drops
 //!   the guard of usage `target` - its own, that of a usage registered earlier (which has already been offered
 //!   this request) or that of a usage registered later (which has NOT been offered it yet and must not be any
@@ -37,6 +44,10 @@
 //!   are expected in the late step (after the script, when 64*T1 have passed), all others in the step of the
 //!   arrival that released them. A request that is never offered although it was released together with a lower
 //!   request whose default answer failed is `c10.order/not-offered-after-failed-default-answer`.
+//! * time plays no part in the expectation. The plan only keeps the books (sum of the script's waits between the
+//!   arrival of a request and the arrival that releases it) to label the shapes and to name a failure: a held
+//!   request that is missing from its release step after a hold of 64*T1 or more is
+//!   `c10.order/held-not-released-after-long-hold`, after a shorter hold `c10.order/held-not-released`.
 //! * guard: independent of the walk - every entry into `Usage::receive` and every guard drop gets a number
 //!   from one counter; an entry of usage u numbered after the drop of u's guard is `c10.guard/shown-after-drop`.
 //!
@@ -49,8 +60,11 @@
 //! once, in order, by the time the server transaction has given up; the backlog itself must be empty at once);
 //! a list released while another one is stuck behind an un-ACKed 404 (overlapping deliveries: not generated);
 //! copies of a re-INVITE or of a request whose answer was refused (not generated: at most one arrival each, their
-//! server transaction is gone so a copy is a new request the statement is silent about); the content of the
-//! default answers.
+//! server transaction is gone so a copy is a new request the statement is silent about); same-branch copies that
+//! arrive 20 s or more after the first one (not generated: once the server transaction of the answered original is
+//! gone, 64*T1 after the answer, such a copy is a new request with a CSeq not above the last one handed on); long
+//! waits in scripts with a peer that never ACKs (not generated: the late step is where that transaction gives up);
+//! the content of the default answers.
 
 use crate::engine::*;
 use crate::refmodel::ref_reorder::{Arrival, Reorder};
@@ -105,7 +119,9 @@ pub enum Ev {
     DropGuard,
     /// the application drops the guard of usage `usage` (position in registration order)
     DropGuardOf { usage: u8 },
-    Wait { ms: u16 },
+    /// virtual time passes (paused tokio clock): 1 ms .. about an hour. Requests that wait for a missing lower
+    /// CSeq stay held however long that takes - the statement has no time limit
+    Wait { ms: u32 },
     /// the previous and the next request arrive back to back: the stack's tasks do not get to run
     /// in between (only between Req / Near / Ack events)
     Join,
@@ -168,6 +184,14 @@ pub struct Case {
     pub rng: u8,
 }
 
+/// a copy of a request (same branch) follows the first one by less than this (far below 64*T1 = 32 s)
+const COPY_WINDOW_MS: u64 = 20_000;
+/// the longest single wait of a script
+const MAX_WAIT_MS: u32 = 4_000_000;
+/// 64*T1: the lifetime of the peer's (non-INVITE) client transaction - a request that is held longer than this
+/// is released when its own transaction at the peer has long timed out. The statement does not care.
+const LONG_HOLD_MS: u64 = 32_000;
+
 const METHODS: &[&str] = &["INFO", "UPDATE", "MESSAGE", "BYE", "OPTIONS", "NOTIFY", "REFER"];
 /// method index of a re-INVITE (only for in-dialog requests; near-miss requests keep to METHODS)
 const M_INVITE: u8 = 7;
@@ -217,6 +241,32 @@ impl Case {
     }
     fn has_join(&self) -> bool {
         self.events.iter().any(|e| *e == Ev::Join)
+    }
+    /// virtual time that the script lets pass in all
+    fn total_wait_ms(&self) -> u64 {
+        self.events.iter().map(|e| if let Ev::Wait { ms } = e { *ms as u64 } else { 0 }).sum()
+    }
+    /// positions of copies that arrive too late: a copy of (idx, gen) that follows the first one by
+    /// COPY_WINDOW_MS or more. (A same-branch copy is a retransmission only as long as the server transaction of
+    /// the original exists - 64*T1 from its answer, and the answer is never earlier than the first arrival -
+    /// or as long as the original is still held; later it would be a new request the statement is silent about.)
+    fn late_copies(&self) -> Vec<usize> {
+        let mut t = 0u64;
+        let mut first: BTreeMap<(u8, u8), u64> = BTreeMap::new();
+        let mut out = vec![];
+        for (i, e) in self.events.iter().enumerate() {
+            match e {
+                Ev::Wait { ms } => t += *ms as u64,
+                Ev::Req { idx, gen } => {
+                    let t0 = *first.entry((*idx, *gen)).or_insert(t);
+                    if t - t0 >= COPY_WINDOW_MS {
+                        out.push(i);
+                    }
+                }
+                _ => {}
+            }
+        }
+        out
     }
     fn is_invite(&self, idx: u8) -> bool {
         self.methods.get(idx as usize) == Some(&M_INVITE)
@@ -279,14 +329,17 @@ impl Case {
             && self.fail_answer.iter().all(|i| (*i as usize) < n)
             && (!self.no_ack || self.invites() > 0)
             && {
-                // re-INVITEs / unsendable answers: at most one arrival each, no back-to-back arrivals, the script
-                // stays far below 64*T1, and nothing is released while an un-ACKed default 404 is pending
+                // re-INVITEs / unsendable answers: at most one arrival each, no back-to-back arrivals, and nothing
+                // is released while an un-ACKed default 404 is pending
                 let special = self.special();
                 special.is_empty()
                     || (!self.has_join()
-                        && special.iter().all(|s| self.events.iter().filter(|e| matches!(e, Ev::Req { idx, .. } if idx == s)).count() <= 1)
-                        && self.events.iter().map(|e| if let Ev::Wait { ms } = e { *ms as u64 } else { 0 }).sum::<u64>() < 20_000)
+                        && special.iter().all(|s| self.events.iter().filter(|e| matches!(e, Ev::Req { idx, .. } if idx == s)).count() <= 1))
             }
+            // a script with a peer that never ACKs stays far below 64*T1 (the late step is where the INVITE server
+            // transaction gives up)
+            && (!self.no_ack || self.total_wait_ms() < 20_000)
+            && self.late_copies().is_empty()
             && (1..=3).contains(&m)
             && (self.roster.is_empty() || !self.observer)
             && usages[..m - 1].iter().all(|t| !*t)
@@ -296,6 +349,7 @@ impl Case {
                 Ev::Ack { .. } => self.role == Role::Uas,
                 Ev::DropGuard => self.taker().is_some(),
                 Ev::DropGuardOf { usage } => (*usage as usize) < m,
+                Ev::Wait { ms } => *ms <= MAX_WAIT_MS,
                 _ => true,
             })
             && self.usage_yields <= 3
@@ -602,6 +656,66 @@ pub fn unwanted_cases(tier: Tier) -> Vec<Case> {
     out
 }
 
+/// the durations of the `held_long` enumeration: below 64*T1, just above it, above twice that, ten minutes
+const HOLD_DURATIONS: &[u32] = &[31_000, 33_000, 70_000, 600_000];
+
+/// Time passes while requests are held (the statement has no time limit: what is held is released when the gap
+/// is filled, however late that is):
+/// every permutation of n = 2..3 (thorough 4) requests x both roles x roster {taker (with / without an observer),
+/// one looking usage (default answers), looker + taker} x
+/// * one wait of HOLD_DURATIONS between two neighbouring arrivals, at every such position, or
+/// * a wait of 17 s between every two neighbouring arrivals (no single wait reaches 64*T1, the hold time of a
+///   request that is released two or more arrivals later does), without / with a retransmission of the first
+///   arrival after the first wait (absorbed: by the held request's pending transaction, or by the server
+///   transaction of the answered one).
+pub fn held_long_cases(tier: Tier) -> Vec<Case> {
+    let mut out = vec![];
+    for role in [Role::Uas, Role::Uac] {
+        let k = if role == Role::Uas { 1 } else { 0 };
+        let off = if role == Role::Uas { 1 } else { 0 };
+        for n in 2..=tier.pick(3, 4) {
+            for (pi, p) in permutations(n).iter().enumerate() {
+                for ri in 0..3 {
+                    let mut base = perm_case(role, k, p, pi + ri);
+                    match ri {
+                        0 => {}
+                        1 => {
+                            base.observer = false;
+                            base.roster = vec![false];
+                        }
+                        _ => {
+                            base.observer = false;
+                            base.roster = vec![false, true];
+                        }
+                    }
+                    for pos in 1..n {
+                        for d in HOLD_DURATIONS {
+                            let mut c = base.clone();
+                            c.events.insert(off + pos, Ev::Wait { ms: *d });
+                            out.push(c);
+                        }
+                    }
+                    for retransmit in [false, true] {
+                        let mut c = base.clone();
+                        for pos in (1..n).rev() {
+                            c.events.insert(off + pos, Ev::Wait { ms: 17_000 });
+                        }
+                        if retransmit {
+                            // (behind the first wait: off + first arrival + wait)
+                            c.events.insert(off + 2, Ev::Req { idx: p[0], gen: 0 });
+                        }
+                        out.push(c);
+                    }
+                }
+            }
+        }
+    }
+    out
+}
+
+/// the long waits of the random scripts (ms): well below 64*T1 = 32 s, around it, multiples, minutes, an hour
+const LONG_WAITS: &[u32] = &[5_000, 17_000, 31_000, 31_999, 32_001, 33_000, 40_000, 64_500, 100_000, 600_000, 3_600_000];
+
 #[derive(Debug, Clone)]
 struct IdxSpec {
     copies: u8,
@@ -620,7 +734,12 @@ pub fn strategy() -> BoxedStrategy<Case> {
         prop::collection::vec((0u8..10, 0u8..7, any::<u16>()), 0..6),
         (0u8..3, any::<u16>()),
         (0u8..4, any::<u16>()),
-        (0u8..6, prop::collection::vec(0u8..4, 24)),
+        (
+            0u8..6,
+            prop::collection::vec(0u8..4, 24),
+            // long waits: (how many: 0..=4 none, 5..=6 one, 7 two; (position key, duration selector) each)
+            (0u8..8, prop::collection::vec((any::<u16>(), 0u8..LONG_WAITS.len() as u8), 2)),
+        ),
         (
             0u8..8,
             0u8..12,
@@ -634,7 +753,7 @@ pub fn strategy() -> BoxedStrategy<Case> {
         any::<u8>(),
     )
         .prop_map(
-            |(uas, (start_sel, rnd, small), n, methods, observer, specs, extras, drop, ack0, (ysel, joins), usage_sel, rng)| {
+            |(uas, (start_sel, rnd, small), n, methods, observer, specs, extras, drop, ack0, (ysel, joins, (long_sel, long_specs)), usage_sel, rng)| {
                 let (act_sel, roster_sel, act_specs, looker_ysel, ext_usage, unwanted) = usage_sel;
                 let (inv_sel, inv_key, refuse_sel, refuse_keys, no_ack, only_lookers) = unwanted;
                 // one case in four has a re-INVITE among its requests, one in four an answer the transport refuses
@@ -727,10 +846,15 @@ pub fn strategy() -> BoxedStrategy<Case> {
                             }
                         }
                         _ => Ev::Wait {
-                            ms: [1u16, 20, 500, 700][(*key & 3) as usize],
+                            ms: [1u32, 20, 500, 700][(*key & 3) as usize],
                         },
                     };
                     push(*key, ev, &mut keyed);
+                }
+                // three cases in eight: one or two long waits somewhere in the script (while requests are held, before
+                // the first arrival, after the last one, ...)
+                for (key, dur) in long_specs.iter().take(match long_sel { 0..=4 => 0, 5 | 6 => 1, _ => 2 }) {
+                    push(*key, Ev::Wait { ms: LONG_WAITS[*dur as usize] }, &mut keyed);
                 }
                 if drop.0 == 2 {
                     // the application drops one usage's guard between two events
@@ -811,6 +935,31 @@ pub fn strategy() -> BoxedStrategy<Case> {
                     if case.no_ack && plan(&case).overlap_blocked {
                         case.no_ack = false;
                     }
+                    // a script with a peer that never ACKs stays far below 64*T1: its long waits become short ones
+                    if case.no_ack {
+                        for e in case.events.iter_mut() {
+                            if let Ev::Wait { ms } = e {
+                                *ms = (*ms).min(700);
+                            }
+                        }
+                    }
+                }
+                // a copy of a request follows the first one within COPY_WINDOW_MS: later copies do not arrive
+                let late = case.late_copies();
+                if !late.is_empty() {
+                    let mut i = 0;
+                    case.events.retain(|_| {
+                        i += 1;
+                        !late.contains(&(i - 1))
+                    });
+                    // (a Join needs an arrival on both sides; an in-receive drop a request that arrives exactly once
+                    // - a request that loses a copy may now be one, never the other way round)
+                    let ev = case.events.clone();
+                    let mut i = 0;
+                    case.events.retain(|e| {
+                        i += 1;
+                        *e != Ev::Join || (i >= 2 && i < ev.len() && ev[i - 2].is_arrival() && ev[i].is_arrival())
+                    });
                 }
                 if !case.has_join() {
                     case.looker_yields = looker_ysel.saturating_sub(3);
@@ -1461,6 +1610,9 @@ struct Expect {
     /// per position of `release`: an earlier request of the same released list was taken by no usage and the
     /// stack's default answer to it ended with an error (send refused, or re-INVITE answer never ACKed)
     after_err: Vec<bool>,
+    /// per position of `release`: the virtual time (sum of the script's waits) between the arrival of the
+    /// request and the arrival that released it (0 for the arriving request itself)
+    hold_ms: Vec<u64>,
     /// the group of the late step (the requests of a list that was stuck behind an un-ACKed default answer)
     late: bool,
     /// how many requests of the last released list of this group are stuck behind its last request (a re-INVITE
@@ -1475,6 +1627,7 @@ impl Expect {
         xx.release = keep.iter().map(|p| self.release[*p]).collect();
         xx.arriving = self.arriving.iter().filter_map(|a| keep.iter().position(|p| p == a)).collect();
         xx.after_err = keep.iter().map(|p| self.after_err.get(*p).copied().unwrap_or(false)).collect();
+        xx.hold_ms = keep.iter().map(|p| self.hold_ms.get(*p).copied().unwrap_or(0)).collect();
         xx.ack = acks;
         xx
     }
@@ -1498,10 +1651,11 @@ struct Plan {
 
 /// the roster walk for one released request: it is offered to the usages whose guard is alive when it is their
 /// turn, in registration order, until one takes it. Returns whether a usage took it.
-fn offer(case: &Case, usages: &[bool], acts: &[Act], live: &mut [bool], x: &mut Expect, c: u64, after_err: bool) -> bool {
+fn offer(case: &Case, usages: &[bool], acts: &[Act], live: &mut [bool], x: &mut Expect, c: u64, after_err: bool, hold_ms: u64) -> bool {
     let pos = x.release.len();
     x.release.push(c);
     x.after_err.push(after_err);
+    x.hold_ms.push(hold_ms);
     for u in 0..usages.len() {
         if !live[u] {
             continue;
@@ -1555,6 +1709,9 @@ fn plan(case: &Case) -> Plan {
     // the rest of a released list that is stuck behind the default answer to a re-INVITE the peer never ACKs
     let mut stuck: Option<Vec<u64>> = None;
     let mut cur: Option<Expect> = None;
+    // virtual time: the sum of the script's waits so far; when each number arrived first
+    let mut now_ms = 0u64;
+    let mut arrived_at: BTreeMap<u64, u64> = BTreeMap::new();
     for (i, e) in case.events.iter().enumerate() {
         let continues = *e == Ev::Join || (i > 0 && case.events[i - 1] == Ev::Join);
         if !continues {
@@ -1578,6 +1735,7 @@ fn plan(case: &Case) -> Plan {
                 let new_branch = arrived_branch.insert((*idx, *gen));
                 if arrived_cseq.insert(c) {
                     first_arrivals.push(c);
+                    arrived_at.insert(c, now_ms);
                     match model.arrive(c) {
                         Arrival::Released(list) => {
                             x.arriving.push(x.release.len());
@@ -1591,7 +1749,8 @@ fn plan(case: &Case) -> Plan {
                             let mut after_err = false;
                             let mut list = list.into_iter();
                             while let Some(c) = list.next() {
-                                let taken = offer(case, &usages, &acts, &mut live, x, c, after_err);
+                                let hold = now_ms - arrived_at.get(&c).copied().unwrap_or(now_ms);
+                                let taken = offer(case, &usages, &acts, &mut live, x, c, after_err, hold);
                                 if !taken && case.default_answer_errs(c) {
                                     after_err = true;
                                 }
@@ -1639,7 +1798,8 @@ fn plan(case: &Case) -> Plan {
                 }
             }
             Ev::DropGuardOf { usage } => live[*usage as usize] = false,
-            Ev::Wait { .. } | Ev::Join => {}
+            Ev::Wait { ms } => now_ms += *ms as u64,
+            Ev::Join => {}
         }
         x.held.extend(model.held.iter().copied());
         x.taker_gone = !(0..m).any(|u| live[u] && usages[u]);
@@ -1663,7 +1823,8 @@ fn plan(case: &Case) -> Plan {
             ..Default::default()
         };
         for c in rest {
-            offer(case, &usages, &acts, &mut live, &mut x, c, true);
+            let hold = now_ms - arrived_at.get(&c).copied().unwrap_or(now_ms);
+            offer(case, &usages, &acts, &mut live, &mut x, c, true, hold);
         }
         x.taker_gone = !(0..m).any(|u| live[u] && usages[u]);
         p.groups.push(x);
@@ -1769,6 +1930,14 @@ fn match_view(
             )
         } else if x.arriving.contains(&i) {
             ("order/in-order-not-shown", describe(format!("CSeq {c} is the next expected number but was not shown in the step it arrived")))
+        } else if x.hold_ms.get(i).map_or(false, |h| *h >= LONG_HOLD_MS) {
+            (
+                "order/held-not-released-after-long-hold",
+                describe(format!(
+                    "CSeq {c} was held for {} ms (64*T1 or longer) until the gap was filled, and was not released in that step (hold times of the list: {:?})",
+                    x.hold_ms[i], x.hold_ms
+                )),
+            )
         } else {
             ("order/held-not-released", describe(format!("CSeq {c} was held and the gap was filled, but it was not released in that step")))
         });
@@ -1981,6 +2150,37 @@ pub fn check(case: &Case, out: &mut CaseOut) {
     if pl.gap_at_end {
         out.class("gap-at-end");
     }
+    // time that passes while requests are held
+    if case.events.iter().any(|e| matches!(e, Ev::Wait { ms } if *ms as u64 >= 5_000)) {
+        out.class("long-wait(>=5s)-in-script");
+    }
+    let mut long_hold = false;
+    for x in pl.groups.iter() {
+        let held: Vec<u64> = (0..x.release.len()).filter(|i| !x.arriving.contains(i) || x.late).map(|i| x.hold_ms[i]).collect();
+        for h in &held {
+            out.class(match *h {
+                0..=4_999 => "held-request-released-after <5s",
+                5_000..=31_999 => "held-request-released-after 5s..64*T1",
+                32_000..=63_999 => "held-request-released-after 64*T1..2*64*T1",
+                64_000..=599_999 => "held-request-released-after 2*64*T1..10min",
+                _ => "held-request-released-after >=10min",
+            });
+        }
+        if held.iter().any(|h| *h >= LONG_HOLD_MS) {
+            long_hold = true;
+            if held.iter().any(|h| *h < LONG_HOLD_MS) {
+                out.class("release-list-mixes-requests-held-longer-and-shorter-than-64*T1");
+            }
+            if x.live_at_start.iter().zip(usages.iter()).any(|(l, t)| *l && *t) {
+                out.class("long-held-request-released-to-a-taking-usage");
+            } else {
+                out.class("long-held-request-released-with-no-taking-usage(default answer)");
+            }
+        }
+    }
+    if long_hold && pl.duplicate {
+        out.class("long-held-request-in-script-with-copies");
+    }
     if case.usage_yields > 0 {
         out.class("usage-yields");
     }
@@ -2119,11 +2319,13 @@ pub fn property() -> Property {
     Property {
         fuzz: vec![],
         id: "C10",
-        rule: "case = role (UAS: dialog from a peer INVITE via Dialog::new_server; UAC: ClientDialogBuilder + real INVITE client transaction answered 200 by the peer) x start CSeq x n<=7 in-dialog requests with consecutive CSeq k+1..k+n (methods INFO/UPDATE/MESSAGE/BYE/OPTIONS/NOTIFY/REFER, tags and Call-ID as the peer derives them, unique X-Seq marker and branch per copy) in an arrival order, with retransmissions (same branch), re-sent copies (new branch), near-miss requests (Call-ID / From-tag / To-tag differing, no To-tag, no From-tag, tags swapped), ACKs with the INVITE's CSeq, a drop of one usage's guard by the application between two events, short waits and back-to-back arrivals (no scheduling point in between) interleaved; x roster of 1..3 usages in registration order (0..3 that only look, at most one that takes and answers, registered last) x guard drops INSIDE Usage::receive (usage `actor`, while it handles request `on`, drops the guard of usage `target` = itself / an earlier / a later usage, right after looking or after its awaits); the usages yield 0..3 times inside receive; x answers that go wrong: the transport refuses every send of a final answer to the requests in `fail_answer` (the stack's default 404 for a request nobody took, or the taking usage's 200), a request may be a re-INVITE (method 8 of 8) whose default 404 the peer ACKs at once or never (`no_ack`, INVITE server transaction gives up after 64*T1); such requests arrive at most once, in scripts without back-to-back arrivals. Non-trivial = the first arrivals are not in CSeq order (>=1 inversion), or a CSeq arrives more than once, or a near-miss request is present, or a guard is dropped inside receive, or a request nobody takes whose default answer fails is followed by held requests in its released list; distinct by hash of the case.",
+        rule: "case = role (UAS: dialog from a peer INVITE via Dialog::new_server; UAC: ClientDialogBuilder + real INVITE client transaction answered 200 by the peer) x start CSeq x n<=7 in-dialog requests with consecutive CSeq k+1..k+n (methods INFO/UPDATE/MESSAGE/BYE/OPTIONS/NOTIFY/REFER, tags and Call-ID as the peer derives them, unique X-Seq marker and branch per copy) in an arrival order, with retransmissions (same branch), re-sent copies (new branch), near-miss requests (Call-ID / From-tag / To-tag differing, no To-tag, no From-tag, tags swapped), ACKs with the INVITE's CSeq, a drop of one usage's guard by the application between two events, short waits (1..700 ms), back-to-back arrivals (no scheduling point in between) and - three scripts in eight - one or two long waits (5 s .. 1 h of virtual time: 5, 17, 31, 31.999, 32.001, 33, 40, 64.5, 100 s, 10 min, 1 h; i.e. requests stay held for less than, about, or far more than 64*T1 = 32 s before the gap is filled; same-branch copies follow the first one within 20 s) interleaved; x roster of 1..3 usages in registration order (0..3 that only look, at most one that takes and answers, registered last) x guard drops INSIDE Usage::receive (usage `actor`, while it handles request `on`, drops the guard of usage `target` = itself / an earlier / a later usage, right after looking or after its awaits); the usages yield 0..3 times inside receive; x answers that go wrong: the transport refuses every send of a final answer to the requests in `fail_answer` (the stack's default 404 for a request nobody took, or the taking usage's 200), a request may be a re-INVITE (method 8 of 8) whose default 404 the peer ACKs at once or never (`no_ack`, INVITE server transaction gives up after 64*T1); such requests arrive at most once, in scripts without back-to-back arrivals. Non-trivial = the first arrivals are not in CSeq order (>=1 inversion), or a CSeq arrives more than once, or a near-miss request is present, or a guard is dropped inside receive, or a request nobody takes whose default answer fails is followed by held requests in its released list; distinct by hash of the case.",
         assumptions: vec![
             "requests with a CSeq not above the last one handed on (re-sent copies, UAC-role numbers below the first arrival) are not asserted either way; they are counted as class lower-cseq",
             "a CSeq that arrives with two different branches is outside 'consecutive CSeq numbers': at least one copy must be shown at the release step, further copies are accepted",
-            "same-branch retransmissions arrive within 64*T1 of the original (the server transaction still exists)",
+            "same-branch retransmissions arrive within 64*T1 of the original (the server transaction still exists): generated as 'every copy of (request, branch) follows the first one by less than 20 s of virtual time' - the original is then either still held (its pending transaction absorbs the copy) or was answered less than 20 s ago",
+            "the statement has no time limit for a held request: it is released when the gap is filled, however much (virtual) time has passed - also when the peer's own transaction for it has timed out long ago (64*T1); time is only the sum of the script's waits (paused clock), it never enters the expectation, only the class labels and the locus of a failure (held-not-released vs held-not-released-after-long-hold)",
+            "scripts with a peer that never ACKs a default 404 have no long waits (total below 20 s: the INVITE server transaction must give up in the late step, not inside the script)",
             "after the taking usage's guard is dropped the in-order stream is observed through the non-2xx default answers the stack hands to the transport (sent, or refused by the send-fault plan)",
             "UAC role: the first in-dialog request that arrives defines the expected number (RFC 3261 sec. 12.2.2 empty remote sequence number)",
             "a request counts as offered to a usage at the moment Usage::receive is entered; back-to-back arrivals reach the dialog layer in injection order (single-threaded cooperative schedule, FIFO task queue)",
@@ -2134,7 +2336,7 @@ pub fn property() -> Property {
             "re-INVITEs and requests whose answer the transport refuses arrive at most once (their server transaction does not outlive the answer, a copy would be a new request with a CSeq not above the last one handed on)",
             "a guard drop inside receive is tied to a request that arrives exactly once and that the reference model hands on; scripts with such drops have no back-to-back arrivals (the interleaving of overlapping deliveries is the recorded open finding)",
         ],
-        explanation: "permutations: every arrival order of n consecutive requests, n<=4 (thorough: n<=5 both roles, n=6 UAS) x both roles x start in {1, crossing 2^31, last=u32::MAX}, plus INVITE CSeq = u32::MAX; guard_drop: every permutation n<=3 (thorough 4) x every drop position x observer x roles; concurrent: every permutation n<=3 (thorough 4) arriving back to back in one or two bursts with a usage that yields; self_drop: every permutation n<=3 (thorough 4) x the taking usage ends itself on each request; usage_drop: rosters {L, LL, LT, LLL, LLT} x every (actor, target) pair x early/late x every permutation n<=3 (thorough 4) x every request the drop can be tied to x both roles, plus every position of an application-side drop of each looking usage's guard; unwanted: every permutation n=2..3 (thorough 4) x both roles x who is left {L, LL, nobody (taker ended), L (taker behind it ended)} x every request j x {answer to j refused by the transport, j = re-INVITE never ACKed, j = re-INVITE ACKed at once, j = re-INVITE and answer refused}; random: sampled scripts with duplicates, near-misses, gaps left open, ACKs, guard drop of any usage, bursts, rosters, one or two in-receive drops, one case in four with a re-INVITE (ACKed / never ACKed), one in four with one or two refused answers (three in four of those with a roster of looking usages only)",
+        explanation: "permutations: every arrival order of n consecutive requests, n<=4 (thorough: n<=5 both roles, n=6 UAS) x both roles x start in {1, crossing 2^31, last=u32::MAX}, plus INVITE CSeq = u32::MAX; guard_drop: every permutation n<=3 (thorough 4) x every drop position x observer x roles; concurrent: every permutation n<=3 (thorough 4) arriving back to back in one or two bursts with a usage that yields; self_drop: every permutation n<=3 (thorough 4) x the taking usage ends itself on each request; usage_drop: rosters {L, LL, LT, LLL, LLT} x every (actor, target) pair x early/late x every permutation n<=3 (thorough 4) x every request the drop can be tied to x both roles, plus every position of an application-side drop of each looking usage's guard; unwanted: every permutation n=2..3 (thorough 4) x both roles x who is left {L, LL, nobody (taker ended), L (taker behind it ended)} x every request j x {answer to j refused by the transport, j = re-INVITE never ACKed, j = re-INVITE ACKed at once, j = re-INVITE and answer refused}; held_long: every permutation n=2..3 (thorough 4) x both roles x roster {T / LT legacy, L, LT} x (one wait of {31 s, 33 s, 70 s, 10 min} at every position between two neighbouring arrivals, or 17 s between every two neighbouring arrivals without / with a retransmission of the first arrival); random: sampled scripts with duplicates, near-misses, gaps left open, ACKs, guard drop of any usage, bursts, rosters, one or two in-receive drops, one case in four with a re-INVITE (ACKed / never ACKed), one in four with one or two refused answers (three in four of those with a roster of looking usages only), three in eight with one or two long waits (5 s .. 1 h) at random positions",
         subs: vec![
             enum_sub("permutations", perm_cases, check),
             enum_sub("guard_drop", drop_cases, check),
@@ -2142,6 +2344,7 @@ pub fn property() -> Property {
             enum_sub("self_drop", self_drop_cases, check),
             enum_sub("usage_drop", usage_drop_cases, check),
             enum_sub("unwanted", unwanted_cases, check),
+            enum_sub("held_long", held_long_cases, check),
             prop_sub("random", strategy, 3000, 40000, check),
         ],
     }
